@@ -206,6 +206,9 @@ def handshake_case(ctx, rng, fixed=None):
     if accept:
         if res is not True or obj.err is not None:
             ctx.violation("supported EBB rejected", dict(witness, returned=repr(res), err=obj.err, why=why))
+            return
+        if rng.random() < 0.5:
+            second_session(ctx, rng, world, scen, min_triple)
         return
     if res is not False:
         ctx.violation("connect() did not return False for an unsupported / non-EBB / silent device",
@@ -233,6 +236,53 @@ def handshake_case(ctx, rng, fixed=None):
     if any(w != "v\r" for w in later):
         ctx.violation("rejected device received more than the version probe",
                       dict(witness, wrote_later=later, retried_connect=retried, log_tail=world.log.dump(20)))
+    world.mon.online = []
+
+
+def second_session(ctx, rng, world, scen, min_triple):
+    """History on ONE object: after a good session the port is closed and the next connect() meets
+    another device (older firmware, non-EBB, or again a supported board). The verdict of the second
+    connect() must be about the device that answers NOW."""
+    ebb3mon.call_step(world, {"m": "disconnect", "a": []})
+    kind = rng.choice(["older firmware", "older firmware", "non-EBB", "supported again", "EBB text without version"])
+    board = world.board
+    board.future = False
+    board.out.clear()
+    step = {"m": "connect", "a": [], "faults": []}
+    if kind == "older firmware":
+        board.version = rng.choice(["2.8.1", "3.0.1", "3.0.0", "2.10.0", "2.99.99", "1.0.0"])
+    elif kind == "non-EBB":
+        board.product = rng.choice(NON_EBB) + " "
+    elif kind == "supported again":
+        board.version = rng.choice(["3.0.2", "3.0.10", "4.0.0"])
+    else:
+        text = rng.choice(HALF_EBB)
+        step["reply"] = {"0": text + "\r\n", "1": text + "\r\n"}
+    mark = world.log.mark()
+    top, _ = ebb3mon.call_step(world, step)
+    ctx.tag("second session on the same object: " + kind)
+    ctx.count("monitor:connect() calls checked")
+    witness = {"part": "handshake", "scenario": dict(scen, second_session={"kind": kind, "version": board.version,
+                                                                           "product": board.product}),
+               "log_tail": world.log.dump(30)}
+    if top is None or "raised" in top:
+        ctx.violation("connect() raised", dict(witness, exception=repr(top and top.get("raised"))))
+        return
+    want = kind == "supported again"
+    res, obj = top["result"], world.obj
+    if want:
+        if res is not True or obj.err is not None:
+            ctx.violation("supported EBB rejected", dict(witness, returned=repr(res), err=obj.err))
+        return
+    if res is not False or obj.err is None:
+        ctx.violation("connect() did not return False for an unsupported / non-EBB / silent device",
+                      dict(witness, returned=repr(res), err=obj.err, why="second session: " + kind))
+    for name in rng.sample(sorted(ebb3mon.REQUESTS), 3):
+        ebb3mon.call_step(world, {"m": name, "a": ebb3mon.gen_args(rng, name)})
+    later = [e["data"].decode("latin-1") for e in world.log.since(mark) if e["kind"] == "write"]
+    if any(w != "v\r" for w in later):
+        ctx.violation("rejected device received more than the version probe",
+                      dict(witness, wrote_later=later, why="second session: " + kind))
     world.mon.online = []
 
 
@@ -268,6 +318,15 @@ def gate_case(ctx, rng, fixed=None):
     log = serialsim.EventLog()
     board = serialsim.Legacy2xBoard(version=vstr(v))
     port = serialsim.FakePort(board, log)
+    unreadable = (fixed[3] if fixed and len(fixed) > 3 else (rng.random() < 0.12 and rng.choice(
+        ["no version in the reply", "silent on V", "error line on V"])))
+    if unreadable == "no version in the reply":
+        board.product, board.version = "UBW FW D Version 1.4.3", ""
+    elif unreadable:
+        plan = serialsim.FaultPlan([{"op": "read", "at": 0, "kind": "silence"}] if unreadable == "silent on V" else
+                                   [{"op": "read", "at": 0, "kind": "line", "data": "!8 Err: Unknown command\r\n"}])
+        port.plan = plan
+        plan.arm()
     mod = ebb_serial if name.startswith("serial.") else ebb_motion
     raised = None
     try:
@@ -276,15 +335,19 @@ def gate_case(ctx, rng, fixed=None):
         raised = exc
     sent = [e["data"].decode("latin-1").rstrip("\r") for e in log.events if e["kind"] == "write"]
     gated_sent = any(s.split(",")[0].upper() == cmd for s in sent)
-    want = v >= t
+    want = v >= t and not unreadable
+    if unreadable:
+        ctx.tag("gate:version unreadable (%s)" % unreadable)
     ctx.case(["gate", "gate:" + name, "gate:at or above threshold" if want else "gate:below threshold"] +
              (["gate:multi-digit component"] if any(x >= 10 for x in v) else []), ("gate", name, v, json.dumps(args)))
     ctx.count("monitor:gated calls checked")
-    w = {"part": "gate", "helper": name, "threshold": thr, "version": vstr(v), "args": args, "wrote": sent}
+    w = {"part": "gate", "helper": name, "threshold": thr, "version": vstr(v), "args": args, "wrote": sent,
+         "unreadable": unreadable or None}
     if raised is not None:
         ctx.violation("gated helper raised", dict(w, exception=repr(raised)))
     elif gated_sent is not want:
-        ctx.violation("gated command sent to too old a firmware" if gated_sent else
+        ctx.violation(("gated command sent although the board reported no readable version" if unreadable else
+                       "gated command sent to too old a firmware") if gated_sent else
                       "gated command withheld from a new enough firmware", w)
 
 
@@ -314,6 +377,10 @@ def run(ctx):
         ctx.need("gate:" + g[0], 200)
     ctx.need("monitor:connect() calls checked", 3000)
     ctx.need("retried connect after a rejection", 500)
+    for kind in ("older firmware", "non-EBB", "supported again", "EBB text without version"):
+        ctx.need("second session on the same object: " + kind, 50)
+    for kind in ("no version in the reply", "silent on V", "error line on V"):
+        ctx.need("gate:version unreadable (%s)" % kind, 30)
     ctx.need("monitor:version comparisons checked", 10000)
 
 
@@ -336,4 +403,4 @@ def replay(ctx, rec):
         handshake_case(ctx, ctx.rng, fixed=(scen["steps"][0], scen["board"], scen["device"]))
     else:
         gate = [g for g in GATES if g[0] == w["helper"]][0]
-        gate_case(ctx, ctx.rng, fixed=(gate, triple(w["version"]), w["args"]))
+        gate_case(ctx, ctx.rng, fixed=(gate, triple(w["version"]), w["args"], w.get("unreadable") or False))
